@@ -35,6 +35,9 @@ COMMON = {
     "filter7":    ("stream", False, False, ["png_ragged", "png_tagonly", "png_badtag", "png_cols0", "png_colshuge", "png_bpc0", "png_colorshuge",
                                             "tiff_ragged", "lzw_png_ragged", "flate_trunc", "flate_garbage", "ahex_odd", "a85_bad", "rl_trunc",
                                             "lzw_junk", "parms_array_short", "unknown"]),
+    # typed entries of the page's resources with the wrong arity / type (an ExtGState's /Font pair, the page's boxes)
+    "gsfont3":    ("object", False, False, ["three", "one", "empty", "name", "nested"]),
+    "mediabox3":  ("object", False, False, ["three", "five", "empty", "refs", "names"]),
     "truncate":   ("object", False, False, None),      # values t<k>: cut the file after the k-th token; filled in per layout
 }
 FAULTS["classic"] = dict(COMMON, **{
@@ -223,7 +226,9 @@ def _base_objects(layout, d):
     objs = {}
     objs[1] = Obj(1, b"<< /Type /Catalog /Pages 2 0 R /Lang " + s(1, b"en") + b" >>")
     objs[2] = Obj(2, b"<< /Type /Pages /Kids [3 0 R] /Count 1 >>")
-    objs[3] = Obj(3, b"<< /Type /Page /Parent 2 0 R /MediaBox [0 0 100 100] /Contents 4 0 R /Resources << /Font << /F1 5 0 R >> /XObject << /Im1 7 0 R >> >> /Deep "
+    gsf = {"three": b"[5 0 R 12 0]", "one": b"[5 0 R]", "empty": b"[ ]", "name": b"/F1", "nested": b"[[5 0 R 12]]"}.get(d.get("gsfont3"), b"[5 0 R 12]")
+    mbox = {"three": b"[0 0 100]", "five": b"[0 0 100 100 100]", "empty": b"[ ]", "refs": b"[5 0 R 5 0 R 5 0 R 5 0 R]", "names": b"[/a /b /c /d]"}.get(d.get("mediabox3"), b"[0 0 100 100]")
+    objs[3] = Obj(3, b"<< /Type /Page /Parent 2 0 R /MediaBox " + mbox + b" /Contents 4 0 R /Resources << /Font << /F1 5 0 R >> /XObject << /Im1 7 0 R >> /ExtGState << /G1 << /Type /ExtGState /LW 1 /Font " + gsf + b" >> >> >> /Deep "
                   + _nest(d.get("nest3")).encode() + b" >>")
     objs[4] = Obj(4, sdict=b"<< >>", data=sd(4, CONTENT))
     objs[5] = Obj(5, b"<< /Type /Font /Subtype /Type1 /BaseFont /Helvetica /FirstChar 65 /LastChar 67 /Widths [500 600 700] /ToUnicode 6 0 R >>")
